@@ -275,7 +275,9 @@ pub fn ro_ack_scenario(r: &mut Report, seed: u64, flagged: bool) {
 /// first 5-7 minutes (the node confirms it) and a wrong one from then on, 6 the other way round,
 /// 7 reachable through a static port forward (the reported port is not the port the socket is bound to; the
 /// forward lets everything through, the node's own datagrams included), 8 reachable, but the path from the
-/// node to its own public address and back is slow (0.6 .. 3 s: longer than any request timeout)
+/// node to its own public address and back is slow (0.6 .. 3 s: longer than any request timeout),
+/// 9 reachable and confirmed, then - before the refresh - one application lookup that nobody answers (a
+/// lookup without a single address vote says nothing about the node's address)
 pub fn adaptive_scenario(r: &mut Report, seed: u64, variant: usize) {
     r.eval();
     let mut rng = Rng::new(seed);
@@ -358,6 +360,10 @@ pub fn adaptive_scenario(r: &mut Report, seed: u64, variant: usize) {
     if neighbours != 0 {
         r.count("adaptive_worlds_with_pinging_neighbours_of_the_voted_address");
     }
+    // (after the last of the scenario's own lookups before the first refresh - they come every four minutes - so
+    // that nothing re-confirms the address in between)
+    let unanswered_at = t0 + 12 * MIN + 50 * SEC + rng.below(100 * SEC);
+    let mut unanswered_done = false;
     let mut timeline: Vec<(u64, bool, bool, Option<SocketAddrV4>)> = vec![];
     let mut became_server_at: Option<u64> = None;
     // occasional lookups carry address votes
@@ -372,6 +378,16 @@ pub fn adaptive_scenario(r: &mut Report, seed: u64, variant: usize) {
                 }
             }
             next_neighbour_ping = w.now() + 2 * MIN + rng.below(120) * SEC;
+        }
+        if variant == 9 && !unanswered_done && w.now() >= unanswered_at {
+            unanswered_done = true;
+            let me = x.addr;
+            w.set_fault(Some(Box::new(move |info: &SendInfo| if info.to == me && info.from != me { Some(vec![]) } else { None })));
+            let a = x.adht.clone();
+            let t = Id::from(rng.array::<20>());
+            w.block_on(async move { drop(a.find_node(t).await) }, 30 * SEC);
+            w.set_fault(None);
+            r.count("adaptive_worlds_with_an_unanswered_lookup_after_the_confirmation");
         }
         if own_id_lookups && w.now() >= next_own_lookup {
             w.block_on(x.adht.bootstrapped(), 30 * SEC);
@@ -401,13 +417,22 @@ pub fn adaptive_scenario(r: &mut Report, seed: u64, variant: usize) {
         return;
     };
     match variant {
-        0 | 4 | 6 | 7 | 8 => {
+        0 | 4 | 6 | 7 | 8 | 9 => {
             if !info.server_mode() {
                 let why = if self_pings == 0 { "no-self-ping" } else if info.firewalled() { "still-firewalled" } else { "not-switched-at-refresh" };
                 r.violation(&format!("adaptive/reachable-node-stays-client/{why}"), "a node reachable at the address its peers report is still in client mode after 33 minutes", case.clone(), detail.clone());
             } else {
                 if info.firewalled() {
                     r.violation("adaptive/server-but-firewalled-flag", "node switched to server mode while still flagged firewalled", case.clone(), detail.clone());
+                }
+                // "at the next 15-minute refresh": confirmed well before the first refresh means serving right after it
+                // (variants whose votes stay true throughout)
+                let confirmed_early = timeline.iter().any(|t| t.0 <= 14 * 60 && !t.2 && t.3.is_some());
+                if matches!(variant, 0 | 4 | 7 | 8 | 9) && confirmed_early {
+                    r.count("adaptive_confirmed_before_the_first_refresh");
+                    if became_server_at.map(|t| t > 17 * MIN).unwrap_or(true) {
+                        r.violation("adaptive/reachable-node-stays-client/not-switched-at-the-next-refresh", "the node had confirmed its address a minute or more before its first 15-minute refresh, yet it was not serving two minutes after that refresh", case.clone(), detail.clone());
+                    }
                 }
                 if became_server_at.map(|t| t < 14 * MIN).unwrap_or(false) {
                     r.violation("adaptive/switched-before-refresh", "node switched to server mode before its first 15-minute refresh", case.clone(), detail.clone());
@@ -503,11 +528,11 @@ pub fn run(a: &Args) -> Report {
         let (s, f) = (rng.u64(), i % 4 != 0);
         super::guarded(&mut r, json!({"class":"ro-acks","seed":s.to_string(),"flagged":f}), |r| ro_ack_scenario(r, s, f));
     }
-    for i in 0..per(112, 2240) {
-        let (s, v) = (rng.u64(), (i + a.shard) as usize % 9);
+    for i in 0..per(128, 2560) {
+        let (s, v) = (rng.u64(), (i + a.shard) as usize % 10);
         super::guarded(&mut r, json!({"class":"adaptive","seed":s.to_string(),"variant":v}), |r| adaptive_scenario(r, s, v));
         r.count("adaptive_timelines");
-        r.count(["adaptive_reachable", "adaptive_behind_nat", "adaptive_wrongly_voted", "adaptive_explicit_server", "adaptive_public_ip", "adaptive_confirmed_then_wrongly_voted", "adaptive_wrongly_voted_then_reachable", "adaptive_reachable_through_a_port_forward", "adaptive_reachable_slow_hairpin"][v]);
+        r.count(["adaptive_reachable", "adaptive_behind_nat", "adaptive_wrongly_voted", "adaptive_explicit_server", "adaptive_public_ip", "adaptive_confirmed_then_wrongly_voted", "adaptive_wrongly_voted_then_reachable", "adaptive_reachable_through_a_port_forward", "adaptive_reachable_slow_hairpin", "adaptive_reachable_with_an_unanswered_lookup"][v]);
     }
     r
 }
